@@ -4,6 +4,7 @@ mod drive;
 mod imp;
 mod json;
 mod spec;
+mod sweep;
 mod x;
 mod xdec;
 mod xenc;
@@ -50,6 +51,11 @@ fn run_replay(j: &J) -> Result<J, String> {
     match j.get("engine").and_then(|e| e.as_str()) {
         Some("xdec") => xdec::replay(j),
         Some("xenc") => xenc::replay(j),
+        Some("sweep") => match j.get("function").and_then(|f| f.as_str()) {
+            Some("for_label") => sweep::c13::replay(j),
+            Some(f) if f.ends_with("_up_to") => sweep::c14::replay(j),
+            _ => Ok(J::obj().set("note", J::s("this sweep case is re-run by its check; the file documents the input"))),
+        },
         Some(e) => Err(format!("unknown engine {}", e)),
         None => Err("no engine".into()),
     }
@@ -266,6 +272,39 @@ fn run_check(prop: &str, tier: Tier) -> CheckOut {
     let has_dec = matches!(prop, "C01" | "C02" | "C05" | "C06" | "C07" | "C08" | "C09" | "C10" | "C18" | "C19");
     let has_enc = matches!(prop, "C03" | "C04" | "C06" | "C07" | "C08" | "C09" | "C12" | "C18");
     let only = std::env::var("VERIF_ONLY").unwrap_or_default(); // "dec" / "enc": development aid
+    let sweep_assumptions = |extra: &str| -> Vec<String> {
+        vec![
+            "x86_64 little-endian only".to_string(),
+            extra.to_string(),
+        ]
+    };
+    match prop {
+        "C13" => {
+            let (stats, vios) = sweep::c13::run(tier);
+            return CheckOut { level: "exploration", stats, vios, rule: "bounded-exhaustive enumeration of label-like byte strings (all strings of length <= 2/3, every 1-edit neighbour, case mask, padding and lengthening of all 228 labels, all short strings over the label alphabet); non-trivial = resolves to an encoding".into(), assumptions: sweep_assumptions("the frozen 228-label table in /verif/spec/labels.txt is the Standard's"), technique: "bounded-exhaustive enumeration against a reference implementation of get-an-encoding".into() };
+        }
+        "C14" => {
+            let (stats, vios) = sweep::c14::run(tier);
+            return CheckOut { level: "exploration", stats, vios, rule: "every core sequence over a 28-byte UTF-8 class alphabet embedded after every prefix length/kind and before suffixes, at several alignments, with the SIMD validator path enabled and disabled; every position of planted defects for the ASCII/UTF-16/Latin1 validators; non-trivial = the input is not entirely valid".into(), assumptions: sweep_assumptions("std::str::from_utf8 is the definition of UTF-8 validity"), technique: "bounded-exhaustive enumeration against std validation".into() };
+        }
+        "C15" => {
+            let (stats, vios) = sweep::c15::run(tier, "C15");
+            return CheckOut { level: "exploration", stats, vios, rule: "every public mem conversion x sources of every length built from a filler class with one planted unit of every class at every position x destination lengths 0..=sufficient+1 (partial functions) / exact and one-short (asserting functions)".into(), assumptions: sweep_assumptions("std lossy conversions define the expected results; partial = longest prefix of whole characters that fits (encodeInto)"), technique: "bounded-exhaustive enumeration against std conversions".into() };
+        }
+        "C16" => {
+            let (stats, vios) = sweep::c16::run(tier);
+            return CheckOut { level: "exploration", stats, vios, rule: "every scalar value and every UTF-16 code unit alone and between fillers; boundary scalars, surrogates and invalid UTF-8 planted at every position of buffers of every length over three fillers; non-trivial = not all-ASCII".into(), assumptions: sweep_assumptions("the documented right-to-left block list restated as literal ranges is the definition"), technique: "bounded-exhaustive enumeration against per-character definitions".into() };
+        }
+        "C20" => {
+            let (stats, vios) = sweep::c20::run(tier);
+            return CheckOut { level: "exploration", stats, vios, rule: "40 encodings x all byte strings of length <= 2 (+ ISO-2022-JP escapes) decoded and all 1,112,064 scalar values encoded by the same build; predicates compared with the behaviour observed".into(), assumptions: sweep_assumptions("behaviour is observed on the same build as the predicates"), technique: "exhaustive enumeration of the finite separating space".into() };
+        }
+        "C11" => {
+            let (stats, vios) = sweep::c11::run(tier);
+            return CheckOut { level: "exploration", stats, vios, rule: "one-shot decode*/encode vs the streaming driver on: all strings of length <= 2, BOM-ish prefixes x per-encoding tails, ASCII runs of every length 0..130 (and around 256/1024/4096) + tail + suffix, error-dense inputs, encode run shapes; non-trivial = input contains an error".into(), assumptions: sweep_assumptions("the streaming converters are the reference for the one-shot API (their own conformance is C01-C04)"), technique: "bounded-exhaustive enumeration, one-shot API against streaming API".into() };
+        }
+        _ => {}
+    }
     match prop {
         _ if has_dec || has_enc => {
             let mut stats = Stats::new();
@@ -278,6 +317,39 @@ fn run_check(prop: &str, tier: Tier) -> CheckOut {
                     _ => ("C02", "C01"),
                 };
                 let (s, v) = run_dec_plan(plan, &or, tag_chunk, tag_single);
+                stats.merge(&s);
+                vios.merge(v);
+            }
+            if prop == "C01" && only != "x" {
+                let (s, v) = sweep::c01::run(tier);
+                stats.merge(&s);
+                vios.merge(v);
+            }
+            if prop == "C03" && only != "x" {
+                let (s, v) = sweep::c03::run(tier);
+                stats.merge(&s);
+                vios.merge(v);
+            }
+            if prop == "C05" && only != "x" {
+                let (s, v) = sweep::c15::run(tier, "C05");
+                stats.merge(&s);
+                vios.merge(v);
+            }
+            if prop == "C06" && only != "x" {
+                let (s, v) = sweep::c15::run(tier, "C06");
+                stats.merge(&s);
+                vios.merge(v);
+                // the validator and classifier sweeps also run here: panics and out-of-range
+                // results of functions without preconditions are charged to C06
+                let (s, v) = sweep::c14::run(Tier::Quick);
+                stats.merge(&s);
+                vios.merge(v);
+                let (s, v) = sweep::c16::run(Tier::Quick);
+                stats.merge(&s);
+                vios.merge(v);
+            }
+            if prop == "C18" && only != "x" {
+                let (s, v) = sweep::c15::run(tier, "C18");
                 stats.merge(&s);
                 vios.merge(v);
             }
